@@ -864,6 +864,19 @@ func (g *Gen) genRelation(faulty bool) {
 			g.do("qall " + f)
 			if len(co) > 0 && strings.HasPrefix(co[0], "= ok c") {
 				g.do("qall C " + co[0][6:])
+				if g.rng.chance(70) && len(g.openQueries()) == 0 {
+					// batch operations through the registration made while the table was retired
+					for _, x := range g.plain {
+						if !contains(comps, x) {
+							g.do(fmt.Sprintf("b_add C %s %s", co[0][6:], idsStr([]int{x})))
+							break
+						}
+					}
+					g.do("b_rment C " + co[0][6:])
+					g.do("stats")
+					g.do(fmt.Sprintf("new %s", idsStr(g.compSet(2))))
+					g.do(fmt.Sprintf("new %s", idsStr(g.compSet(2))))
+				}
 			}
 		}
 	case 0, 1:
@@ -1340,6 +1353,19 @@ func (g *Gen) genDumpLoad(faulty bool) {
 // (out of registration order): ids obtained before a reset stay valid
 func (g *Gen) doReset() {
 	g.do("reset")
+	if g.rng.chance(30) {
+		// a second reset of a world in which nothing was created since the first: resources
+		// (and registered filters) added in between must be gone as well
+		if n := len(g.r.resIDs); n > 0 {
+			k := g.rng.intn(n)
+			g.do(fmt.Sprintf("resadd %d %d", k, 1+g.rng.intn(1000)))
+			g.do("reset")
+			g.do(fmt.Sprintf("reshas %d", k))
+			g.do(fmt.Sprintf("resadd %d %d", k, 1+g.rng.intn(1000)))
+		} else {
+			g.do("reset")
+		}
+	}
 	if n := len(g.r.resIDs); n > 0 && g.rng.chance(60) {
 		g.do(fmt.Sprintf("reslook %d", n-1-g.rng.intn(min(n, 3))))
 	}
